@@ -309,10 +309,19 @@ def h_lookup_then_copy(eng):
     eng.prove("separation.after_lookups_no_shared_mutable_object", z3.BoolVal(not shared and not [c for c in new if c in orig]), shared=shared[:5])
 
 
+def h_no_state_outside_the_trees(eng):
+    """A tree and its deep copy share nothing only if nothing of what the tree functions remember lives OUTSIDE the trees: a
+    container at module level of tree.py / ast.py that a function writes to is shared by the original and every copy (class names
+    are the same in both).  C05's contract on module-level state, which independence of copies depends on."""
+    from contracts import C05
+    C05.h_no_process_wide_state(eng)
+
+
 HARNESSES = [("deepcopy(tree) via Class.__deepcopy__", h_whole_tree), ("Class.copy_including_children", h_subtree),
              ("Class.__deepcopy__ memo frame", h_memo_frame), ("copy of an edited copy", h_copy_of_copy), ("edit API frames", h_edit_frames),
-             ("Class._find_class then deepcopy(tree): ownership invariant", h_lookup_then_copy)]
-EXPECTED_COVER = {"copy.tree", "copy.subtree", "copy.memo", "copy.copy_of_copy", "edit.done", "copy.after_lookup"}
+             ("Class._find_class then deepcopy(tree): ownership invariant", h_lookup_then_copy),
+             ("tree.py / ast.py keep no state outside the trees", h_no_state_outside_the_trees)]
+EXPECTED_COVER = {"copy.tree", "copy.subtree", "copy.memo", "copy.copy_of_copy", "edit.done", "copy.after_lookup", "state.modules"}
 BOUNDED = True
 LEVEL = "proof"
 TRUSTED = ["pyvc VC generator and its object / dict / list model", "copy.deepcopy's protocol as modelled in contracts/copy_model.py (CPython documentation: memo keyed by id(), __deepcopy__ lookup on the instance first, registration before state copy)"]
